@@ -178,4 +178,131 @@ def pathConfOk (e : Env) (pc : PathConf) : Bool :=
     | .ph k ex => k != kd.1 || (!(ex == Re.star Cls.notSlash) && ex.accepts e kd.2)
     | _ => true)))
 
+/-! ### ADDED (C05c): mutually exclusive templates
+
+  `tplExcl e syms A B` decides a sufficient condition for "no path that `B` renders from
+  admissible CONCRETE values is matched by the regular expression of `A`"; `pathsExclusive` asks it
+  of every template against every EARLIER template of the configuration (the order in which
+  `Resolver.resolve_first` tries them).  Soundness: `Spil/Lemmas/ExclTpl.lean` (`Excl.no_match`). -/
+
+/-- an alternative of a vocabulary that spells a search symbol literally (`\*`, `\>`) -/
+def isSymWord (syms : List Str) (w : List Cls) : Bool := syms.any (fun s => w == s.map Cls.lit)
+
+/-- the CONCRETE words of a vocabulary: the alternatives that are not a search symbol -/
+def concAlts (syms : List Str) (alts : List (List Cls)) : List (List Cls) :=
+  alts.filter (fun w => !isSymWord syms w)
+
+/-- the atom restricted to its concrete words -/
+def Atom.conc (syms : List Str) : Atom → Atom
+  | .closed k alts => .closed k (concAlts syms alts)
+  | a => a
+
+/-- the atom read from right to left -/
+def Atom.rev : Atom → Atom
+  | .closed k alts => .closed k (alts.map List.reverse)
+  | a => a
+
+/-- a list of atoms read from right to left -/
+def revAtoms (fl : List Atom) : List Atom := (fl.map Atom.rev).reverse
+
+/-- the words of a non-free atom, as class sequences -/
+def Atom.words : Atom → Option (List (List Cls))
+  | .cls k => some [[k]]
+  | .closed _ alts => some alts
+  | .free _ => none
+
+/-- the atom can never consume a '/' -/
+def Atom.noSlash (e : Env) : Atom → Bool
+  | .cls k => k.slashFree e
+  | .closed _ alts => alts.all (fun w => w.all (fun k => k.slashFree e))
+  | .free _ => true
+
+/-- two non-free atoms at the same position of a string necessarily read the same prefix of it -/
+def skipOk (e : Env) (a b : Atom) : Bool :=
+  match a.words, b.words with
+  | some X, some Y => prefixFree e (X ++ Y)
+  | _, _ => false
+
+/-- two non-free atoms can never read the same position of a string: no word of one is a prefix of
+    a word of the other -/
+def disjOk (e : Env) (a b : Atom) : Bool :=
+  match a.words, b.words with
+  | some X, some Y => X.all (fun x => Y.all (fun y => !prefixCompat e x y && !prefixCompat e y x))
+  | _, _ => false
+
+/-- the atoms before the first '/' atom and the atoms after it -/
+def cutSlash : List Atom → Option (List Atom × List Atom)
+  | [] => none
+  | a :: as =>
+    if a.isSlash then some ([], as)
+    else match cutSlash as with
+      | some (s, r) => some (a :: s, r)
+      | none => none
+
+/-- counting '/': `B` renders exactly one '/' per '/' atom; `A` reads at least one '/' per '/' atom
+    and at most one per atom that can consume a '/' (a literal `.` of a template is the wildcard) -/
+def slashRule (e : Env) (A B : List Atom) : Bool :=
+  Nat.blt (B.countP Atom.isSlash) (A.countP Atom.isSlash) ||
+  Nat.blt (A.countP (fun a => !a.noSlash e)) (B.countP Atom.isSlash)
+
+/-- walk the atoms of `A` (the template that tries to match) and of `B` (the template that rendered,
+    restricted to concrete words) from the LEFT, both standing at the same position of the string;
+    `true` = "they cannot both parse it".  The first argument is fuel (`A.length + 1` suffices:
+    every recursive call drops an atom of `A`).
+    * one list is exhausted and the other goes on with a non-free atom (a non-empty word without
+      newline: neither the end of the string nor the final newline `$` tolerates);
+    * the heads are `disjOk`;
+    * the heads are `skipOk`: both read the same prefix, go on;
+    * otherwise the heads tell nothing (a free placeholder, overlapping vocabularies): count the
+      '/' that are left (`slashRule`), or jump in both lists behind the next '/' atom — allowed
+      when no atom of `A` before it can consume a '/' (`B` renders exactly one '/' per '/' atom). -/
+def lwalk (e : Env) : Nat → List Atom → List Atom → Bool
+  | 0, _, _ => false
+  | n + 1, A, B =>
+    match A, B with
+    | [], [] => false
+    | [], b :: _ => !b.isFree || slashRule e A B
+    | a :: _, [] => !a.isFree || slashRule e A B
+    | a :: A', b :: B' =>
+      disjOk e a b ||
+      (if skipOk e a b then lwalk e n A' B'
+       else slashRule e A B ||
+        (match cutSlash A, cutSlash B with
+         | some (sa, A''), some (_, B'') => sa.all (Atom.noSlash e) && lwalk e n A'' B''
+         | _, _ => false))
+
+/-- `A` cannot match what `B` renders: by counting '/', by the walk from the left, or by the same
+    walk from the RIGHT on the reversed atoms (only when `B` ends with a non-free atom: then the
+    rendered string has no final newline for `$` to skip, so both end at the same position). -/
+def atomsExcl (e : Env) (A B : List Atom) : Bool :=
+  slashRule e A B || lwalk e (A.length + 1) A B ||
+  (match revAtoms B with
+   | b :: _ => !b.isFree && lwalk e (A.length + 1) (revAtoms A) (revAtoms B)
+   | [] => false)
+
+/-- no path rendered by `B` from admissible concrete values is matched by the regular expression of
+    `A` (sufficient condition; `syms` are the search symbols, whose literal alternatives `\*`, `\>`
+    of `B`'s vocabularies are never rendered from concrete values) -/
+def tplExcl (e : Env) (syms : List Str) (A B : Template) : Bool :=
+  match flatAtoms A, flatAtoms B with
+  | some fa, some fb => atomsExcl e fa (fb.map (Atom.conc syms))
+  | _, _ => false
+
+/-- every template excludes every LATER template of the list -/
+def exclEarlier (e : Env) (syms : List Str) : List (Str × Template) → Bool
+  | [] => true
+  | lt :: rest => rest.all (fun lt' => tplExcl e syms lt.2 lt'.2) && exclEarlier e syms rest
+
+/-- "mutually exclusive value patterns", as `Resolver.resolve_first` needs it: no template matches
+    a path rendered (from admissible concrete values) by a template that comes AFTER it -/
+def pathsExclusive (e : Env) (syms : List Str) (pc : PathConf) : Bool :=
+  exclEarlier e syms pc.templates
+
+/-- the values handed to a template are CONCRETE: no closed placeholder gets a search symbol
+    (`*`, `>`, …) as its value.  Nothing is asked of free placeholders. -/
+def concreteOk (syms : List Str) (t : Template) (data : Dict) : Bool :=
+  t.all (fun tok => match tok with
+    | .lit _ => true
+    | .ph k ex => ex == Re.star Cls.notSlash || !(syms.contains ((data.get k).getD [])))
+
 end Spec
